@@ -14,13 +14,14 @@ from declib2 import fill, Dec2, gen_block, spec, model1, has_zero_offset
 from capi import Lib
 from vlib import Oracle, build_lib, hx, md5
 
-THEOREMS = ["C05_valid_decodes", "C05_valid_decodes_safe", "C05_continue_step", "C05_success_sound", "C05_success_sound_strict_refuted", "C05_inplace_margin", "C05_fast_valid", "C05_fast_usingDict_valid", "C05_fast_continue_step", "C05_inplace_step_footprint", "C05_inplace_footprint_partial", "C05_inplace_decodes", "C05_inplace_decodes_any_margin", "C05_inplace_margin32_refuted"]
+THEOREMS = ["C05_valid_decodes", "C05_valid_decodes_safe", "C05_continue_step", "C05_success_sound", "C05_success_sound_strict_refuted", "C05_inplace_margin", "C05_fast_valid", "C05_fast_usingDict_valid", "C05_fast_continue_step", "C05_inplace_step_footprint", "C05_inplace_footprint_partial", "C05_inplace_decodes", "C05_inplace_decodes_any_margin", "C05_inplace_margin32_refuted", "C05_continue_session", "C05_session_init", "C05_continue_session_contiguous", "C05_continue_session_ring", "C05_continue_three_segments_refuted", "C05_ring_min_refuted", "C05_fast_continue_session", "C05_fast_continue_session_contiguous", "C05_fast_continue_session_ring", "C05_ring_margin_const", "C05_ring_wrap_eq", "C05_ring_wrap_block"]
 ORACLES = ["block", "dec2"]
 CORRESPONDENCE = [
     "dec_generic/decompress_usingDict model == LZ4_decompress_safe(_usingDict) on valid blocks (return value, whole destination image), fast loop on",
     "dec_generic/decompress_usingDict model == LZ4_decompress_safe(_usingDict) on valid blocks (return value, whole destination image), fast loop off",
     "DecStream.decompress_safe_continue model == LZ4_decompress_safe_continue (return value, destination image, the four LZ4_streamDecode_t fields) in every documented geometry",
     "DecInplace model (LZ4_decompress_safe with source and destination in ONE memory, input loads from the current contents) == LZ4_decompress_safe run in place at the end of a buffer of n + LZ4_DECOMPRESS_INPLACE_MARGIN(n) bytes (return value, the whole buffer afterwards), both fast-loop builds, capacity n and whole buffer; and at margin base 32 on the F16 witness (both fail alike)",
+    "DecRingWrap model (the wrap call of a decoding ring buffer: external dictionary and destination in ONE memory, dictionary loads from the current contents) == LZ4_decompress_safe_continue at the wrap of a ring of 65536 + margin + maxBlock bytes, margin = the header's (LZ4_decoderRingBufferSize) and margin = 14 (finding F20: both corrupt alike on the fast-loop build; replay of C05_ring_min_refuted), return value and whole ring afterwards, both fast-loop builds",
     "DecFast model (LZ4_decompress_unsafe_generic) == LZ4_decompress_fast / _fast_usingDict on valid blocks (return value, destination image, no out-of-buffer access) and == LZ4_decompress_fast_continue (return value, image, LZ4_streamDecode_t fields) in every geometry"]
 RULE = ("valid blocks generated from sequences by an independent encoder (profiles: generic, short offsets 1..8 x lengths near the buffer end, "
         "zero-literal sequences (also after 64 KB of output), 255-chains for literal and match lengths, matches straddling dictionary and output, "
@@ -57,6 +58,9 @@ def gen_cases(tier, seed):
         cases.append({"kind": "edge64k", "bseed": rng.randrange(1 << 48)})
     for i in range({"quick": 6, "search": 12, "thorough": 40}[tier]):
         cases.append({"kind": "inplace", "bseed": rng.randrange(1 << 48), "count": 150})
+    for i in range({"quick": 3, "search": 6, "thorough": 16}[tier]):
+        cases.append({"kind": "ringmin", "bseed": rng.randrange(1 << 48), "count": 4})
+    cases.append({"kind": "ring14", "bseed": 0})
     cases.append({"kind": "f5", "bseed": 0})
     rng.shuffle(cases)
     # regression corpus of finding F14 (fixed in /repo): the 16 one-byte empty blocks x capacity 0; runs first
@@ -278,6 +282,90 @@ def check_stream(st, rng, res, geom, big, edge=False):
                      (geom, i, m[0], m[1], m[2], rec["ret"], rec["state"], "same" if m[3] == md5(rec["img"]) else "differs"), geom=geom, build=bname, block=i)
                 break
 
+def _ring_session(st, res, blocks, maxblock, lap, margin, salt, judge):
+    """decode [blocks] in a ring of 65536 + margin + maxblock bytes by the documented rule (restart at the ring start when
+    fewer than maxblock bytes remain).  Correspondence (always): the wrap call of the last block == Model/DecRingWrap.v
+    (dictionary and destination in one memory), return value and the whole ring afterwards.  Property (judge=True): every
+    call returns the decoded size with the right content.  returns {build: (ret, decoded bytes of the last block)}"""
+    from capi import Buf
+    out = {}
+    for bname, dec in st["libs"].items():
+        L = dec.lib
+        size = 65536 + margin + maxblock
+        if margin == declib2.ring_margin() and L.decoderRingBufferSize(maxblock) != size:
+            fail(res, "harness_error", "LZ4_decoderRingBufferSize(%d) = %d but the generated constant DECODER_RING_MARGIN says %d" % (maxblock, L.decoderRingBufferSize(maxblock), size))
+            return out
+        ring = Buf(size, data=fill(size, salt))
+        sd = Buf(32)
+        L.setStreamDecode(sd.p, None, 0)
+        pos = 0
+        for i, b in enumerate(blocks):
+            n = len(b["content"])
+            before = None
+            if size - pos < maxblock:
+                before, lapsize, pos = ring.bytes(size, 0), pos, 0
+            srcb = Buf(len(b["blk"]), data=b["blk"])
+            r = L.decompress_safe_continue(sd.p, srcb.p, ring.p + pos, len(b["blk"]), maxblock)
+            srcb.free()
+            res["evals"] += 1
+            res["stats"]["stream_ringmin_%d" % margin] += 1
+            after = ring.bytes(size, 0)
+            if i == len(blocks) - 1:
+                out[bname] = (r, after[pos:pos + n])
+            if before is not None and i == len(blocks) - 1:
+                mr, mok, mimg = declib2.model_ringwrap(st["dec2"], bname == "fast1", before, lapsize, b["blk"], maxblock)
+                res["stats"]["model_calls_ringwrap"] += 1
+                if mok != "ok" or mr != r or mimg != md5(after):
+                    fail(res, "corr_fail", "DecRingWrap model/code disagree at the ring wrap (margin %d): model ret=%d %s code ret=%d ring %s" % (margin, mr, mok, r, "same" if mimg == md5(after) else "differs"),
+                         geom="ringmin", build=bname, blk=b["blk"].hex(), lap=lapsize, maxblock=maxblock, margin=margin)
+            if judge and (r != n or after[pos:pos + n] != b["content"]):
+                got = after[pos:pos + n]
+                first = next((k for k in range(min(len(got), n)) if got[k] != b["content"][k]), -1)
+                fail(res, "prop_fail", "LZ4_decompress_safe_continue in a ring buffer of LZ4_decoderRingBufferSize(%d) = %d bytes: block %d (decoded at ring offset %d after a lap of %d bytes) returned %d (expected %d), content %s (first wrong byte at %d)"
+                     % (maxblock, size, i, pos, lap, r, n, "equal" if got == b["content"] else "DIFFERS", first),
+                     geom="ringmin", build=bname, block=i, blk=b["blk"].hex(), lap=lap, maxblock=maxblock, ring=size)
+                break
+            pos += n
+        ring.free(); sd.free()
+    return out
+
+def check_ringmin(st, rng, res):
+    """decoding ring buffer of exactly LZ4_decoderRingBufferSize(maxblock) bytes (the documented minimum; the margin is the
+    generated constant DECODER_RING_MARGIN), wrapped by the documented rule; the block decoded at the wrap references the
+    oldest bytes the format can reach right after a literal run / with the offsets that the 31-byte over-copy of
+    LZ4_wildCopy32 endangers (finding F20: margin 14).  The same generator at margin 14 is run for the model/code
+    correspondence only (there the fast-loop build corrupts the output, and so must the model)."""
+    margin = declib2.ring_margin()
+    for m, judge in ((margin, True), (14, False)):
+        blocks, maxblock, lap = declib2.gen_ringmin(rng, m)
+        for b in (blocks[0], blocks[-2], blocks[-1]):
+            D = spec(st["spec"], "strict", b["hist"], b["blk"])
+            if D is None or D != b["content"]:
+                fail(res, "harness_error", "ringmin generator produced a block the specification does not accept as generated", blk=b["blk"].hex()[:2000])
+                return
+        _ring_session(st, res, blocks, maxblock, lap, m, rng.randrange(200), judge)
+        res["keys"].add(hashlib.sha1(b"ringmin|%d|" % m + blocks[-1]["blk"]).hexdigest())
+
+RING14_JUNK = bytes([173, 174, 175, 160, 161, 162, 163, 164])
+
+def check_ring14(st, res):
+    """replay of C05_ring_min_refuted (Proofs/DecRingMin.v) on the real decoder: ring of 65536 + 14 + 1024 bytes, the theorem's
+    lap and wrap block.  With LZ4_FAST_DEC_LOOP the call returns 81 and the eight matched bytes are the theorem's wrong
+    bytes; with the safe loop the content is right; model == code in both (checked inside _ring_session)."""
+    blocks, maxblock, lap = declib2.ring14_witness()
+    b = blocks[-1]
+    D = spec(st["spec"], "strict", b["hist"], b["blk"])
+    if D is None or D != b["content"]:
+        fail(res, "harness_error", "ring14 witness block is not accepted by the specification as generated", blk=b["blk"].hex())
+        return
+    out = _ring_session(st, res, blocks, maxblock, lap, 14, 170, False)
+    for bname, (r, got) in out.items():
+        want = b["content"] if bname != "fast1" else b["content"][:33] + RING14_JUNK + b["content"][41:]
+        if r != 81 or got != want:
+            fail(res, "harness_error", "replay of C05_ring_min_refuted on build %s: returned %d, bytes [33,41) = %s (theorem: 81, %s)" % (bname, r, got[33:41].hex(), want[33:41].hex()),
+                 build=bname, blk=b["blk"].hex())
+    res["keys"].add(hashlib.sha1(b"ring14|" + b["blk"]).hexdigest())
+
 F5_BLOCK = bytes.fromhex("10410000506263646566")
 
 def run_case(st, case):
@@ -320,6 +408,11 @@ def run_case(st, case):
                 blk = bytes(rng.choice([0, 1, 0x0f, 0x10, 0xf0, 0xff, rng.randrange(256)]) for _ in range(n))
                 Dlen = rng.choice([0, 10, 100, 1000])
             check_converse(st, rng, res, blk, hist, Dlen)
+    elif kind == "ring14":
+        check_ring14(st, res)
+    elif kind == "ringmin":
+        for j in range(case["count"]):
+            check_ringmin(st, rng, res)
     elif kind == "inplace":
         # in-place decoding at the documented margin: blocks whose tail keeps the input cursor as close to the
         # output cursor as the format allows (match lengths = 1, 2, 3 mod 32 so that LZ4_wildCopy32 overshoots by
